@@ -42,6 +42,10 @@ var c11Configs = []c11Config{
 		o := []ucfg.Option{ucfg.PathSep("."), ucfg.VarExp}
 		return mustCfg(M{"a": "${b.c}", "b": M{"c": "v"}, "l": L{"pre-${a}", "${a}${a}"}, "n": "${b}"}, o...), o, nil
 	}},
+	{"object-references", func() (*ucfg.Config, []ucfg.Option, interface{}) {
+		o := []ucfg.Option{ucfg.PathSep("."), ucfg.VarExp}
+		return mustCfg(M{"a": "${b.c}", "b": "${defaults}", "defaults": M{"c": "v", "hosts": L{"h1", "h2"}, "user": "${a}"}, "l": "${defaults.hosts}", "n": "${defaults}"}, o...), o, nil
+	}},
 	{"resolver-objects", func() (*ucfg.Config, []ucfg.Option, interface{}) {
 		o := []ucfg.Option{ucfg.PathSep("."), ucfg.VarExp, c11Resolver(map[string]string{"obj": "{c: 1, d: [2, 3]}", "lst": "[x, y]", "prim": "5"}, parse.DefaultConfig)}
 		return mustCfg(M{"a": "${prim}", "b": "${obj}", "l": "${lst}", "n": "x-${prim}"}, o...), o, nil
@@ -114,6 +118,43 @@ var c11Reads = []c11Read{
 		var m map[string]interface{}
 		e2 := t.B.Unpack(&m, o...)
 		return "B=" + rs(tree.CanonGoOpt(m, true), e2)
+	}},
+	{"Unpack twice into one struct(captured *Config)", func(c *ucfg.Config, o []ucfg.Option) string {
+		var t c11Captured
+		if err := c.Unpack(&t, o...); err != nil {
+			return rs(nil, err)
+		}
+		if err := c.Unpack(&t, o...); err != nil {
+			return rs(nil, err)
+		}
+		s := fmt.Sprintf("A=%v L=%v", t.A, t.L)
+		for _, sub := range []*ucfg.Config{t.B, t.N} {
+			if sub != nil {
+				var m map[string]interface{}
+				e2 := sub.Unpack(&m, o...)
+				s += " sub=" + rs(tree.CanonGoOpt(m, true), e2)
+			}
+		}
+		return s
+	}},
+	{"Unpack twice into one struct(captured *Config), AppendValues", func(c *ucfg.Config, o []ucfg.Option) string {
+		var t c11Captured
+		oa := append(append([]ucfg.Option{}, o...), ucfg.AppendValues)
+		if err := c.Unpack(&t, oa...); err != nil {
+			return rs(nil, err)
+		}
+		if err := c.Unpack(&t, oa...); err != nil {
+			return rs(nil, err)
+		}
+		s := ""
+		for _, sub := range []*ucfg.Config{t.B, t.N} {
+			if sub != nil {
+				var m map[string]interface{}
+				e2 := sub.Unpack(&m, o...)
+				s += " sub=" + rs(tree.CanonGoOpt(m, true), e2)
+			}
+		}
+		return s
 	}},
 	{"String(a)", func(c *ucfg.Config, o []ucfg.Option) string { return rs(c.String("a", -1, o...)) }},
 	{"Int(a)", func(c *ucfg.Config, o []ucfg.Option) string { return rs(c.Int("a", -1, o...)) }},
